@@ -223,59 +223,72 @@ def mkTok (ty : TokenType) (start : Pos) (s : St) (lit : List Char) : Tok × St 
 def illegalMsgString : List Char := "ein Offenes Text Literal".toList
 def illegalMsgChar : List Char := "ein Offenes Buchstaben Literal".toList
 
+abbrev Out := Tok × St × List Char × List Char × List Diag
+
+/-- `newToken(ty)` after a sub-scanner: token, state, covered text, remaining input, diagnostics -/
+def emit (ty : TokenType) (s0 : St) (c : Char) (r : Sub) (d : List Diag) : Out :=
+  ((mkTok ty s0.pos r.st (c :: r.consumed)).1, (mkTok ty s0.pos r.st (c :: r.consumed)).2,
+    c :: r.consumed, r.rest, d)
+
+/-- a token consisting of the single rune `c` -/
+def emitSingle (ty : TokenType) (s0 : St) (c : Char) (cs : List Char) : Out :=
+  emit ty s0 c { st := s0.adv c, consumed := [], rest := cs } []
+
+/-- `errorToken(msg)` -/
+def emitIllegal (msg : List Char) (s0 : St) (c : Char) (r : Sub) : Out :=
+  (⟨.ILLEGAL, msg, r.st.indent, s0.pos, r.st.pos⟩, r.st, c :: r.consumed, r.rest, r.diags)
+
+/-- `identifier(start)` -/
+def scanIdent (m : Mode) (s0 : St) (c : Char) (cs : List Char) : Out :=
+  let r := takeWhileSt isAlphaNumeric (s0.adv c) cs
+  let ty := identifierType (c :: r.consumed)
+  let report := m.strict && s0.shouldCapitalize && !isUpper c
+  emit ty s0 c r (if report && ty ≠ .IDENTIFIER then [⟨.expectedCapital, s0.pos, (s0.adv c).pos⟩] else [])
+
+def scanNum (s0 : St) (c : Char) (cs : List Char) : Out :=
+  let rn := scanNumber (s0.adv c) cs
+  emit (if rn.2 then .FLOAT else .INT) s0 c rn.1 []
+
+def scanDot (s0 : St) (c : Char) (cs : List Char) : Out :=
+  match cs with
+  | '.' :: '.' :: ds => emit .ELIPSIS s0 c { st := ((s0.adv c).adv '.').adv '.', consumed := ['.', '.'], rest := ds } []
+  | _ => emitSingle .DOT s0 c cs
+
+def scanStringTok (s0 : St) (c : Char) (cs : List Char) : Out :=
+  let r := scanQuoted '"' (s0.adv c) cs
+  if r.flag then emit .STRING s0 c r r.diags else emitIllegal illegalMsgString s0 c r
+
+def scanCharTok (s0 : St) (c : Char) (cs : List Char) : Out :=
+  let r := scanQuoted '\'' (s0.adv c) cs
+  if r.flag then
+    let n := r.consumed.length + 1
+    let tooLarge : Bool := !(n == 3 || (n == 4 && r.flag2))
+    emit .CHAR s0 c r (r.diags ++ (if tooLarge then [⟨.malformedLiteral, s0.pos, r.st.pos⟩] else []))
+  else emitIllegal illegalMsgChar s0 c r
+
+def scanCommentTok (s0 : St) (c : Char) (cs : List Char) : Out :=
+  emit .COMMENT s0 c (scanComment (s0.adv c) 1 cs) []
+
+def scanPlaceholderTok (s0 : St) (c : Char) (cs : List Char) : Out :=
+  let r := scanPlaceholder s0.pos c (s0.adv c) cs
+  emit .ALIAS_PARAMETER s0 c r r.diags
+
 /-- the part of `NextToken` after `skipWhitespace` when the input is not at its end:
 `c` is the rune returned by the first `advance()`. -/
-def scanBody (m : Mode) (s0 : St) (c : Char) (cs : List Char) : Tok × St × List Char × List Char × List Diag :=
-  let start := s0.pos
-  let s := s0.adv c
-  if isAlpha c then
-    let r := takeWhileSt isAlphaNumeric s cs
-    let lit := c :: r.consumed
-    let ty := identifierType lit
-    let report := m.strict && s0.shouldCapitalize && !isUpper c
-    let d : List Diag := if report && ty ≠ .IDENTIFIER then [⟨.expectedCapital, start, s.pos⟩] else []
-    let (t, st) := mkTok ty start r.st lit
-    (t, st, lit, r.rest, d)
-  else if isDigit c then
-    let (r, isFloat) := scanNumber s cs
-    let lit := c :: r.consumed
-    let (t, st) := mkTok (if isFloat then .FLOAT else .INT) start r.st lit
-    (t, st, lit, r.rest, [])
-  else if c = '-' then let (t, st) := mkTok .NEGATE start s [c]; (t, st, [c], cs, [])
-  else if c = '.' then
-    match cs with
-    | '.' :: '.' :: ds =>
-      let s2 := (s.adv '.').adv '.'
-      let (t, st) := mkTok .ELIPSIS start s2 [c, '.', '.']; (t, st, [c, '.', '.'], ds, [])
-    | _ => let (t, st) := mkTok .DOT start s [c]; (t, st, [c], cs, [])
-  else if c = ',' then let (t, st) := mkTok .COMMA start s [c]; (t, st, [c], cs, [])
-  else if c = ':' then let (t, st) := mkTok .COLON start s [c]; (t, st, [c], cs, [])
-  else if c = '(' then let (t, st) := mkTok .LPAREN start s [c]; (t, st, [c], cs, [])
-  else if c = ')' then let (t, st) := mkTok .RPAREN start s [c]; (t, st, [c], cs, [])
-  else if c = '"' then
-    let r := scanQuoted '"' s cs
-    let lit := c :: r.consumed
-    if r.flag then
-      let (t, st) := mkTok .STRING start r.st lit; (t, st, lit, r.rest, r.diags)
-    else (⟨.ILLEGAL, illegalMsgString, r.st.indent, start, r.st.pos⟩, r.st, lit, r.rest, r.diags)
-  else if c = '\'' then
-    let r := scanQuoted '\'' s cs
-    let lit := c :: r.consumed
-    if r.flag then
-      let (t, st) := mkTok .CHAR start r.st lit
-      let tooLarge : Bool := !(lit.length == 3 || (lit.length == 4 && r.flag2))
-      let d : List Diag := if tooLarge then [⟨.malformedLiteral, t.start, t.stop⟩] else []
-      (t, st, lit, r.rest, r.diags ++ d)
-    else (⟨.ILLEGAL, illegalMsgChar, r.st.indent, start, r.st.pos⟩, r.st, lit, r.rest, r.diags)
-  else if c = '[' then
-    let r := scanComment s 1 cs
-    let lit := c :: r.consumed
-    let (t, st) := mkTok .COMMENT start r.st lit; (t, st, lit, r.rest, [])
-  else if c = '<' && m.alias then
-    let r := scanPlaceholder start c s cs
-    let lit := c :: r.consumed
-    let (t, st) := mkTok .ALIAS_PARAMETER start r.st lit; (t, st, lit, r.rest, r.diags)
-  else let (t, st) := mkTok .SYMBOL start s [c]; (t, st, [c], cs, [])
+def scanBody (m : Mode) (s0 : St) (c : Char) (cs : List Char) : Out :=
+  if isAlpha c then scanIdent m s0 c cs
+  else if isDigit c then scanNum s0 c cs
+  else if c = '-' then emitSingle .NEGATE s0 c cs
+  else if c = '.' then scanDot s0 c cs
+  else if c = ',' then emitSingle .COMMA s0 c cs
+  else if c = ':' then emitSingle .COLON s0 c cs
+  else if c = '(' then emitSingle .LPAREN s0 c cs
+  else if c = ')' then emitSingle .RPAREN s0 c cs
+  else if c = '"' then scanStringTok s0 c cs
+  else if c = '\'' then scanCharTok s0 c cs
+  else if c = '[' then scanCommentTok s0 c cs
+  else if c = '<' && m.alias then scanPlaceholderTok s0 c cs
+  else emitSingle .SYMBOL s0 c cs
 
 structure Result where
   segs : List Seg
